@@ -4,6 +4,10 @@ E1: complete products  operation x operand kinds x operand CRS tags  executed on
 operations additionally x operand COUNT (every length of a contiguous range, the odd operand anywhere), for the GeoBox
 operations x relative ORIENTATION of the two pixel grids (mirrored / transposed / turned).
 
+Two further dimensions: the SPELLING FAMILY of the CRS tag (OGC URN / URL, compound URN / 'EPSG:h+v' / compound WKT,
+registered compound codes, ESRI / OGC / IGNF / IAU_2015 codes; slice "spellings") and the CLASS of the operands (every
+operation handed operands of another CRS-tagged class than its signature names; slice "foreign-class").
+
 Operations are the union of an explicit list and of *discovery by signature* (public callables of
 Geometry / BoundingBox / GeoBox and of the modules geom / geobox with two parameters annotated with the
 same CRS-tagged type, or one parameter annotated as a list/iterable of such a type, plus the binary
@@ -98,10 +102,85 @@ SUB_TAGS = ("none", "EPSG:4326", "wkt2:4326", "wkt2:4326+e") + NONEPSG_TAGS + EN
 R_TAGS = ("none", "EPSG:4326", "wkt2:4326", "EPSG:3857", "proj:A", "stale:32633")  # reduced alphabet of the add-on slices
 
 
+# ---- spelling families ("sp:" tags) ----------------------------------------------------------------------
+# Authority-code spellings of ONE definition syntax each, as complete products (spelling x code / component pair):
+#   single EPSG code:  EPSG:N | OGC URN | versioned URN | OGC URL | versioned URL           x N
+#   compound h+v:      OGC compound URN | 'EPSG:h+v' | WKT2 text of the compound            x h x v
+#   registered compounds (EPSG:9518 = 4326+3855), other authorities (ESRI, OGC, IGNF, IAU_2015) incl. one number that
+#   exists under two authorities (30165) and codes of other authorities that ARE an EPSG CRS (ESRI:102100 = EPSG:3857).
+# Which definitions are the same CRS is decided by comparing fresh pyproj.CRS objects of the two definitions (never
+# by odc.geo.crs, never by reading codes off the text). A definition the installed PROJ database cannot resolve
+# offline is dropped; so is one that would make that comparison non-transitive. A definition pyproj resolves but
+# the library's CRS() refuses (on some trees 'EPSG:h+v') makes a case vacuous: constructing is not combining.
+SP_CODES = (4326, 32633, 32634)
+SP_SINGLE = (("epsg", "EPSG:{n}"), ("urn", "urn:ogc:def:crs:EPSG::{n}"), ("urnv", "urn:ogc:def:crs:EPSG:9.8.15:{n}"),
+             ("url", "http://www.opengis.net/def/crs/EPSG/0/{n}"), ("urlv", "http://www.opengis.net/def/crs/EPSG/9.8.15/{n}"))
+SP_H, SP_V = (32633, 32634), (5773, 3855)
+SP_COMPOUND = (("curn", "urn:ogc:def:crs,crs:EPSG::{h},crs:EPSG::{v}"), ("plus", "EPSG:{h}+{v}"), ("cwkt", None))
+SP_OTHER = (
+    ("epsg:9518", "EPSG:9518"), ("curn:4326-3855", "urn:ogc:def:crs,crs:EPSG::4326,crs:EPSG::3855"),
+    ("curn:4326-5773", "urn:ogc:def:crs,crs:EPSG::4326,crs:EPSG::5773"),
+    ("epsg:3857", "EPSG:3857"), ("esri:102100", "ESRI:102100"),
+    ("esri:54009", "ESRI:54009"), ("urn-esri:54009", "urn:ogc:def:crs:ESRI::54009"), ("esri:54008", "ESRI:54008"),
+    ("ogc:CRS84", "OGC:CRS84"), ("urn-ogc:CRS84", "urn:ogc:def:crs:OGC:1.3:CRS84"),
+    ("url-ogc:CRS84", "http://www.opengis.net/def/crs/OGC/1.3/CRS84"), ("ogc:CRS83", "OGC:CRS83"),
+    ("ignf:LAMB93", "IGNF:LAMB93"), ("ignf:LAMB1", "IGNF:LAMB1"), ("ignf:WGS84G", "IGNF:WGS84G"),
+    ("epsg:30165", "EPSG:30165"), ("iau:30165", "IAU_2015:30165"),
+)
+
+
+def _sp_candidates():
+    out = [(f"{sp}:{n}", pat.format(n=n)) for n in SP_CODES for sp, pat in SP_SINGLE]
+    for h in SP_H:
+        for v in SP_V:
+            for sp, pat in SP_COMPOUND:
+                if pat is None:
+                    try:
+                        d = pyproj.CRS.from_user_input(f"EPSG:{h}+{v}").to_wkt()
+                    except Exception:  # pylint: disable=broad-except
+                        d = f"<WKT2 of EPSG:{h}+{v} unavailable>"
+                else:
+                    d = pat.format(h=h, v=v)
+                out.append((f"{sp}:{h}-{v}", d))
+    return out + list(SP_OTHER)
+
+
+def _sp_table():
+    """-> ({tag: definition}, {tag: class}, {class: fresh pyproj reference}, [dropped (tag, why)])
+    class: the EPSG code when the definition equals a plain 'EPSG:N' member of the table, else 'sp:<first equal member>'."""
+    defs, cls, refs, dropped, objs = {}, {}, {}, [], {}
+    for name, d in _sp_candidates():
+        tag = f"sp:{name}"
+        try:
+            p = pyproj.CRS.from_user_input(d)
+        except Exception as e:  # pylint: disable=broad-except
+            dropped.append((tag, f"not resolved by the installed PROJ: {type(e).__name__}"))
+            continue
+        eq = [t for t in defs if objs[t] == p or p == objs[t]]
+        both = [t for t in defs if objs[t] == p and p == objs[t]]
+        if eq != both or len({cls[t] for t in eq}) > 1:
+            dropped.append((tag, "pyproj equality with the earlier definitions is not an equivalence"))
+            continue
+        if eq:
+            c = cls[eq[0]]
+        else:
+            c = int(d[5:]) if d.startswith("EPSG:") and d[5:].isdigit() else tag
+            refs[c] = pyproj.CRS.from_user_input(d)
+        defs[tag], cls[tag], objs[tag] = d, c, p
+    return defs, cls, refs, dropped
+
+
+SP_DEF, SP_CLASS, SP_REF, SP_DROPPED = _sp_table()
+SP_TAGS = ("none",) + tuple(SP_DEF)
+_SP_BY_DEF = {d: SP_CLASS[t] for t, d in SP_DEF.items()}
+
+
 def tag_class(tag: str):
     """Equivalence class of a tag: EPSG code, 0 for 'no CRS', 'laeaA'/'laeaB' for the custom projections."""
     if tag == "none":
         return 0
+    if tag.startswith("sp:"):
+        return SP_CLASS[tag.split("+")[0]]
     sp, code = tag.split("+")[0].split(":")
     if sp == "stale":
         return f"stale{code}"
@@ -109,6 +188,8 @@ def tag_class(tag: str):
 
 
 def cls_label(c) -> str:
+    if isinstance(c, str) and c.startswith("sp:"):
+        return c[3:].replace("-", "+")  # 'curn:32633+5773'
     return "none" if c == 0 else str(c)
 
 
@@ -116,6 +197,8 @@ def make_tag(tag: str):
     """A new value of the given spelling (what the user passes as ``crs=``)."""
     if tag == "none":
         return None
+    if tag.startswith("sp:"):
+        return SP_DEF[tag.split("+")[0]]
     sp, code = tag.split("+")[0].split(":")
     code = int(code) if code.isdigit() else code
     if sp in ("EPSG", "epsg", "Epsg"):
@@ -151,7 +234,12 @@ _EPSG_OF: dict = {}
 
 
 def _class_of_str(s):
+    if s in _SP_BY_DEF:  # literally one of the spelled definitions (their classes come from fresh pyproj comparisons)
+        return _SP_BY_DEF[s]
     p = pyproj.CRS.from_user_input(s)
+    for k, ref in SP_REF.items():
+        if not isinstance(k, int) and p == ref:  # (codes of other authorities: to_epsg() below is a database search)
+            return k
     e = p.to_epsg()
     if e:
         return e
@@ -987,13 +1075,19 @@ def stateful_operand(fam, kind, pos, tag):
     base = tag.split("+")[0]
     if tag.endswith("+e"):
         k = ("ecrs", tag, pos)  # one CRS object per operand position: the operands are evaluated separately
-        if k not in _OBJ:
-            _OBJ[k] = CRS(tagv(base))
-        crs = _OBJ[k]
+        # (spelled definitions of other authorities: the code look-up is a database search of up to 0.15 s; their
+        # evaluated CRS objects are kept for the life of the worker process instead of one shard)
+        store = _ECRS if base.startswith("sp:") else _OBJ
+        if k not in store:
+            store[k] = CRS(tagv(base))
+        crs = store[k]
         _ = crs.epsg  # (the pyproj look-up happens once per object; afterwards the slot answers)
         _ = crs.to_epsg()
         return _build(fam, kind, pos, crs)  # norm_crs keeps a CRS object as it is
     return _build(fam, kind, pos, tagv(base))
+
+
+_ECRS: dict = {}
 
 
 def run_nonepsg(case):
@@ -1005,6 +1099,173 @@ def run_nonepsg(case):
     slots = "+".join(sorted({"-" if o.crs is None else str(getattr(o.crs, "_epsg", "?")) for o in operands}))
     r = judge(op, cont, kinds, tags, operands=operands)
     r.outcome = f"nonepsg:{r.outcome}:epsg-slots={slots}"  # 0 = not looked up, None = looked up: no code
+    return r
+
+
+# ---- spelling families: URN / URL / compound / other-authority definitions ---------------------------------------
+SPK2 = {"Geometry": ("polygon", "line"), "BoundingBox": ("A", "over"), "GeoBox": ("base", "shift")}
+SPK3 = {"Geometry": ("polygon", "polyhole", "multipolygon"), "BoundingBox": ("A", "over", "apart"),
+        "GeoBox": ("base", "shift", "inside")}
+
+
+def _evaluated(tags):
+    return tuple(t if t == "none" else t + "+e" for t in tags)
+
+
+def gen_spell(tier):
+    def gen():
+        full = tier != "quick"
+        pairs = [(a, b) for a in SP_TAGS for b in SP_TAGS]
+        pairs += [_evaluated(tt) for tt in pairs if tt != ("none", "none")]  # both operands' .epsg evaluated first
+        triples = tag_triples(SP_TAGS)
+        if full:
+            triples += [_evaluated(tt) for tt in triples if set(tt) != {"none"}]
+        for fam in ("Geometry", "BoundingBox", "GeoBox"):
+            for op in ops_of(fam, True):
+                for tt in pairs:
+                    yield (op, "list", SPK2[fam], tt)
+            for op in ops_of(fam, False):
+                for cont in containers(op):
+                    for tt in pairs:
+                        yield (op, cont, SPK2[fam], tt)
+                    if full or cont == "list":
+                        for tt in triples:
+                            yield (op, cont, SPK3[fam], tt)
+    return gen
+
+
+_SP_OK: dict = {}
+
+
+def sp_constructible(tag):
+    """Does the library's CRS() accept the definition at all (a property of the tree, kept per process)?"""
+    if tag not in _SP_OK:
+        st, v = capture(lambda: CRS(SP_DEF[tag]))
+        if st == "exc" and not core.in_repo_tb(v):
+            raise RuntimeError(f"harness: {tag}: {type(v).__name__}: {v}") from v
+        _SP_OK[tag] = st == "ok"
+    return _SP_OK[tag]
+
+
+def sp_family(tag):
+    if tag == "none":
+        return "none"
+    name = tag.split("+")[0].split(":")[1]
+    if name in ("curn", "plus", "cwkt") or tag.startswith("sp:epsg:9518"):
+        return "compound"
+    return "epsg-code" if name in dict(SP_SINGLE) else "other-authority"
+
+
+def run_spell(case):
+    op, cont, kinds, tags = case
+    if op not in OPS:
+        return R(outcome="operation-absent-from-this-tree", nontrivial=False)
+    fams = "+".join(sorted({sp_family(t) for t in tags}))
+    state = "evaluated" if any(t.endswith("+e") for t in tags) else "fresh"
+    bad = sorted({t.split("+")[0] for t in tags if t != "none" and not sp_constructible(t.split("+")[0])})
+    if bad:  # constructing a CRS is not a combining operation: nothing to judge
+        r = R(outcome=f"spell[{fams},{state}]:crs-not-constructible", nontrivial=False)
+        r.counts = {f"observation:definition-refused-by-CRS():{bad[0]}": 1}
+        return r
+    fam = OPS[op]["family"]
+    operands = [stateful_operand(fam, k, i, t) for i, (k, t) in enumerate(zip(kinds, tags))]
+    r = judge(op, cont, kinds, tags, operands=operands)
+    r.outcome = f"spell[{fams},{state}]:{r.outcome}"
+    return r
+
+
+# ---- operands of ANOTHER CRS-tagged class than the signature names ------------------------------------------------
+# Every operation x every assignment of classes {Geometry, BoundingBox, GeoBox} to its operand positions other than
+# "all of the class the signature names" (a method's self stays what it is) x tag pairs / odd-one-out triples.
+# What such a call does when the CRSs agree is outside the property (today: AttributeError / TypeError /
+# ValueError). When they DIFFER it must not hand back a result: any exception is accepted, a returned value is a
+# result computed from coordinates of different reference systems.
+FAMILIES = ("Geometry", "BoundingBox", "GeoBox")
+XK = {"Geometry": ("polygon", "point"), "BoundingBox": ("A", "inside"), "GeoBox": ("base", "inside")}
+X3_TAGS = ("none", "EPSG:4326", "EPSG:3857", "proj:A")
+
+
+def _families_in(ann, globs, depth=0):
+    """CRS-tagged classes named anywhere in an annotation (through Optional / Union / containers)."""
+    ann = _resolve(ann, globs)
+    if ann is None or ann is inspect.Parameter.empty or depth > 4:
+        return set()
+    fam = family_of(ann)
+    if fam:
+        return {fam}
+    out = set()
+    for a in typing.get_args(ann):
+        out |= _families_in(a, globs, depth + 1)
+    return out
+
+
+@functools.lru_cache(maxsize=None)
+def declared_families(op):
+    """Classes the operation's own signature names for its operands: an operand of such a class is not 'foreign'
+    (a signature naming several CRS-tagged classes states a converting contract; those are excluded, see bounds)."""
+    owner, name = op.split(".", 1)
+    f = inspect.getattr_static(CLASSES[owner], name) if owner in CLASSES else getattr(MODS[owner], name)
+    f = getattr(f, "__func__", f)
+    w = inspect.unwrap(f)
+    fams = {OPS[op]["family"]}
+    try:
+        params = inspect.signature(w).parameters.values()
+    except (TypeError, ValueError):
+        return fams
+    for p in params:
+        fams |= _families_in(p.annotation, getattr(w, "__globals__", {}))
+    return fams
+
+
+def foreign_patterns(op, n):
+    """All assignments of classes to the n operand positions except the all-own one; classes the signature itself
+    names are not used as foreign ones."""
+    own = OPS[op]["family"]
+    declared = declared_families(op)
+    alphabet = [own] + [f for f in FAMILIES if f not in declared]
+    first = (own,) if OPS[op]["how"][0] in ("method", "method-nary") else tuple(alphabet)
+    return [(a,) + rest for a in first for rest in itertools.product(alphabet, repeat=n - 1)
+            if any(f != own for f in (a,) + rest)]
+
+
+def gen_foreign():
+    pairs = [(a, b) for a in R_TAGS for b in R_TAGS]
+    triples = tag_triples(X3_TAGS)
+    for op in sorted(OPS):
+        binary = OPS[op]["form"] == "binary"
+        for cont in (("list",) if binary else containers(op)):
+            for n, tagsets in ((2, pairs),) if binary else ((2, pairs), (3, triples)):
+                for fams in foreign_patterns(op, n):
+                    for variant in (0, 1):
+                        for tt in tagsets:
+                            yield (op, cont, fams, variant, tt)
+
+
+def run_foreign(case):
+    op, cont, fams, variant, tags = case
+    if op not in OPS:
+        return R(outcome="operation-absent-from-this-tree", nontrivial=False)
+    own = OPS[op]["family"]
+    if any(f != own and f in declared_families(op) for f in fams):  # replay against a tree with another signature
+        return R(outcome="operand-class-named-by-the-signature", nontrivial=False)
+    kinds = tuple(XK[f][(i + variant) % 2] for i, f in enumerate(fams))
+    operands = [_build(f, k, i, tagv(t)) for i, (f, k, t) in enumerate(zip(fams, kinds, tags))]
+    classes = [tag_class(t) for t in tags]
+    same = len(set(classes)) == 1
+    st, got = capture_lib(lambda: invoke(OPS[op], operands, cont))
+    if st == "ok" and got is NotImplemented:
+        seen = "refused-NotImplemented"  # what Python turns into a TypeError for the operator spelling
+    else:
+        seen = f"raised-{type(got).__name__}" if st == "exc" else f"returned-{type(got).__name__}"
+    others = "+".join(sorted(set(fams) - {own}))
+    r = R(outcome=f"foreign[{own}-operation<-{others}{'' if own in fams else ' only'}]:{relation(tags)}:{seen}",
+          nontrivial=not same)
+    if not same and seen.startswith("returned-"):
+        what = f"{op}({', '.join(f'{f}:{k}@{t}' for f, k, t in zip(fams, kinds, tags))})"
+        what += " [generator input]" if cont == "iter" else ""
+        r.fail(f"{op}:operand-classes-{'-'.join(fams)}:mismatch:{'-'.join(cls_label(c) for c in classes)}:no-error",
+               f"{what}: the operands are CRS-tagged objects in different CRSs but the call returned {show(got)} "
+               f"instead of raising")
     return r
 
 
@@ -1651,6 +1912,16 @@ def slices(tier):
                  "every operation x a few kind tuples x all ordered pairs / odd-one-out triples of tags incl. two custom "
                  "projections without EPSG code (proj4, WKT2, pyproj spellings), each fresh and after .epsg/to_epsg() "
                  "was evaluated on the operand's CRS object", setup=reset),
+        e1.Slice("spellings", gen_spell(tier), run_spell,
+                 "every operation x all ordered pairs (collections also odd-one-out triples) of authority-code spellings: "
+                 "EPSG code as EPSG:N / URN / versioned URN / URL / versioned URL, compound h+v as compound URN / "
+                 "'EPSG:h+v' / WKT2 (sharing the vertical or the horizontal component), registered compound codes, "
+                 "ESRI / OGC / IGNF / IAU_2015 codes; fresh and after .epsg was evaluated on both operands; 'same CRS' "
+                 "= fresh pyproj objects of the two definitions compare equal", setup=reset),
+        e1.Slice("foreign-class", gen_foreign, run_foreign,
+                 "every operation x every assignment of the three CRS-tagged classes to its operand positions (2; collections "
+                 "also 3) other than the one its signature names x 2 kind variants x all ordered reduced tag pairs / "
+                 "odd-one-out triples, list and generator input: with different CRSs nothing may be returned", setup=reset),
         e1.Slice("geometry-kinds2", gen_kinds2(tier), run_case,
                  "Geometry operations (binary and collections of 2) where at least one operand is a single-part Multi*, a "
                  "line with repeated vertices, or a ring / part derived through .exterior / .interiors / .geoms; quick: "
@@ -1703,6 +1974,27 @@ def main(ctx):
         "reduced_tags_of_add_on_slices": list(R_TAGS),
         "stale_id_wkt": "WKT2 of EPSG:32633 with the central meridian edited 15 -> 16.5 deg, trailing ID[\"EPSG\",32633] kept "
                         "(class 'stale32633': pyproj to_epsg() is None and it is != EPSG:32633)",
+        "spelling_families": {
+            "tags (name: definition; long WKT shortened)": {t: (d if len(d) < 90 else d[:60] + "...") for t, d in SP_DEF.items()},
+            "classes (fresh pyproj comparison of the definitions)": {t: cls_label(c) for t, c in SP_CLASS.items()},
+            "dropped (not resolvable offline / comparison not an equivalence)": [list(x) for x in SP_DROPPED],
+            "products": {"EPSG code spellings": [p for _, p in SP_SINGLE], "codes": list(SP_CODES),
+                         "compound spellings": [p or "WKT2 text of EPSG:h+v" for _, p in SP_COMPOUND],
+                         "horizontal": list(SP_H), "vertical": list(SP_V)},
+            "states": "both operands new CRS objects | .epsg and to_epsg() evaluated on both (pairs; thorough: triples too)",
+            "kinds": {"pairs": {f: list(k) for f, k in SPK2.items()}, "triples": {f: list(k) for f, k in SPK3.items()}},
+            "quick": "triples as lists only, new CRS objects only",
+        },
+        "foreign_class": {
+            "classes": list(FAMILIES), "kinds (two variants: alternating from the first / second)": {f: list(k) for f, k in XK.items()},
+            "positions": "2 for binary operations, 2 and 3 for collections; every class assignment except all-own; "
+                         "a method's self keeps its class",
+            "tags": {"pairs": list(R_TAGS), "odd-one-out triples": list(X3_TAGS)},
+            "classes named by an operation's own signature (not used as foreign there)":
+                {op: sorted(declared_families(op) - {OPS[op]["family"]}) for op in sorted(OPS)
+                 if declared_families(op) - {OPS[op]["family"]}},
+            "not enumerated": "raw shapely shapes as operands (they carry no CRS tag: the property does not speak about them)",
+        },
         "geometry_kinds2": list(GEOM_KINDS2),
         "long_streams": {
             "plan (quick)": {f: _plan_bounds("quick", f) for f in LONG_CYCLES},
@@ -1757,6 +2049,12 @@ def main(ctx):
         "when an edge lies within 1e-3 px of a decision boundary); an exception raised for a region in ANOTHER CRS is an "
         "observation (refusing is not mixing), an exception for the SAME CRS in another spelling is a violation; CRS-less "
         "regions are not enumerated there (project / tiles(BoundingBox) document a pixel-plane reading)",
+        "spelled definitions (sp: tags): two definitions are the same CRS iff fresh pyproj.CRS objects built from them compare "
+        "equal (PROJ's 'equivalent' criterion: axis order and the vertical component count, names do not); the alphabet "
+        "holds no pair on which that criterion and the EPSG code reported by to_epsg() disagree (e.g. IGNF:LAMB93 is in, "
+        "EPSG:2154 is not); a definition that the library's CRS() itself refuses makes the case vacuous",
+        "operands of another CRS-tagged class than the signature names: only 'different CRSs => nothing is returned' is "
+        "demanded (any exception, or NotImplemented from an operator method, is accepted); equal CRSs are not judged",
         "discovered operations without a hand-written reference are judged by the generic clauses only (mismatch => "
         "ValueError; same class => no ValueError, result tagged with the operands' CRS)",
     ]
